@@ -16,7 +16,7 @@ func init() {
 		ID:    "C08",
 		Level: "exploration",
 		Rule: "cases: first a sample of the repository's own manifest directories (3 repetitions x all outputs + the binary), then one generated resource set per case (NetworkPolicy worlds with many shared selectors, ANP/BANP worlds, Ingress/Route worlds, a large profile with up to 14 workloads and 10 policies) written in V layout variants (canonical file; documents shuffled into one file; one file per document with random names; random nested grouping; NetworkPolicy rules and peers permuted) and analysed R times per variant in fresh analyzers, for list txt/json/csv/md/dot x exposure off/on and diff txt/csv/md/dot against a second world; a slice is also run through the binary (fresh process, fresh hash seed); " +
-			"plus a light stream of many more resource sets (list txt, and with exposure txt/json and one of dot/md/csv in rotation, two layouts - in every other case the second one with rules and peers permuted -, three fresh analyses each; 30% with an isolated namespace whose connection-less workloads and representative peers must be grouped the same way every time); oracle: byte equality of every output with the first one of its kind; the number of distinct internal iteration orders actually seen (order of the returned []Peer slice) is measured per input; " +
+			"plus a light stream of many more resource sets (list txt, and with exposure txt/json and one of dot/md/csv in rotation, two layouts - in every other case the second one with rules and peers permuted -, three fresh analyses each; 30% with an isolated namespace whose connection-less workloads and representative peers must be grouped the same way every time; 8% of the NetworkPolicy worlds hold the dumped pods of a StatefulSet, each with its own pod-name / pod-index label, and a policy selecting one replica by it - rejected or analysed, but the same way every time); oracle: byte equality of every output with the first one of its kind; the number of distinct internal iteration orders actually seen (order of the returned []Peer slice) is measured per input; " +
 			"non-trivial = at least 3 workload peers and a non-empty report (the number of inputs for which more than one internal iteration order was actually observed is reported as an event, not demanded: an implementation that sorts its peers has only one); distinct = world hash",
 		Assumptions:       []string{"values inside one selector and ports inside one rule are not permuted (the statement names documents, files, rules and peers)", "each semantic selector has one spelling per world except in the committed witness of finding C08-selector-spelling"},
 		NumCases:          func(tier string, _ int64) int { return tierN(tier, 76+1500, 470+30000) },
@@ -92,6 +92,15 @@ func c08World(g *rng.R, fam int) (*world.World, string) {
 		}
 		if g.P(0.3) {
 			world.AddIsolatedNamespace(g, w)
+		}
+		if g.P(0.08) { // the dumped pods of a StatefulSet, each with its own pod-name label, and a policy selecting one of them by it
+			key := rng.Pick(g, []string{"statefulset.kubernetes.io/pod-name", "apps.kubernetes.io/pod-index"})
+			ns := w.Workloads[0].Ns
+			w.Workloads = append(w.Workloads, world.Workload{Ns: ns, Name: "sts", Kind: world.KOwnedPods, OwnerKind: world.KStatefulSet, NPods: 3,
+				Labels: map[string]string{"app": "sts"}, PerPodLabel: key, Ports: []world.CPort{{Num: 8080, Proto: "TCP"}}})
+			w.NetPols = append(w.NetPols, world.NetPol{Ns: ns, Name: "one-replica", PodSel: world.Sel{ML: map[string]string{key: fmt.Sprintf("sts-x%d", g.Intn(3))}},
+				HasTypes: true, PolicyTypes: []string{"Ingress"}, Ingress: []world.NPRule{{Ports: []world.NPPort{{Port: 8080}}}}})
+			w.AddFeature("perPodLabelOnOwnedPods")
 		}
 		return w, "np"
 	case 1:
